@@ -72,6 +72,11 @@ def gen_case(run, i):
         ref = [[rng.randint(1, vmax) for _ in range(w)] for _ in range(h)]
     else:
         ref = [[rng.randint(1, vmax) for _ in range(w)] for _ in range(h)]
+    if i % 16 == 7 and model != 'gain-blk-offset':
+        # a source that is negative throughout (signed data: anomalies, slightly negative reflectance over water): every kernel sum
+        # of the source is negative and non-zero; the definitions do not care about signs
+        src = [[-v for v in row] for row in src]
+        style = 'negative-source'
     sm, rm = gen_mask(rng, h, w), gen_mask(rng, h, w)
     if i % 16 == 15 and i % 32 == 15:
         sm[:], rm[:] = True, True    # every other large-kernel case: fully valid, so that the central windows are complete
